@@ -59,6 +59,31 @@ def eval_range(drv, wd, a, b, timeout=25):
     return res
 
 
+def nav_design(sc, tier):
+    """spec/NavFault.tla: the index descent terminates on EVERY index graph over N blocks under the reader's rule
+    (an entry leads only to an earlier block); without the rule (the pinned reader) TLC finds the loop - the self-test
+    that the model is not vacuous.  The code side of this obligation is the edge_to_* fault class."""
+    sd = C.copy_spec(sc)
+    n = 3 if tier == "quick" else 4
+    out = {}
+    for rule in ("TRUE", "FALSE"):
+        cfg = os.path.join(sd, "nav_%s.cfg" % rule)
+        with open(cfg, "w") as f:
+            f.write("SPECIFICATION Spec\nCONSTANTS\n  N = %d\n  RuleOn = %s\nCHECK_DEADLOCK FALSE\nINVARIANT C18_DescentTerminates\n" % (n if rule == "TRUE" else 3, rule))
+        r = C.tlc(sd, "NavFault", cfg, sc, workers=8, timeout=1800)
+        inv, _ = C.tlc_violations(r["out"])
+        if rule == "TRUE":
+            if inv or "No error has been found" not in r["out"]:
+                raise C.Inconclusive("NavFault: the design model does not establish termination: " + r["out"][-1500:])
+            out["graphs"] = r["distinct"]
+            out["blocks"] = n
+        else:
+            if "C18_DescentTerminates" not in inv:
+                raise C.Inconclusive("NavFault self-test: without the offset rule the model should loop: " + r["out"][-1500:])
+            out["without_rule"] = "loops (self-test)"
+    return out
+
+
 def run(pid, tier):
     t0 = time.time()
     seed = C.seed()
@@ -83,6 +108,14 @@ def run(pid, tier):
             bigblk["logs"] = [{"n": "refs/heads/biglog", "i": bigblk["min"], "del": False, "old": "", "new": "ab" * (hs // 2), "user": "u", "email": "e",
                                "time": 1, "tz": 0, "msg": "m"}]
         pick.append(bigblk)
+        # tables whose ref index has several levels (95-byte names: an index block of 256 bytes holds two entries): the index graph
+        for di, (nd, hs) in enumerate([(24, 40), (40, 64)] if tier == "quick" else [(24, 40), (40, 64), (70, 40), (120, 64)]):
+            one = "c3" * (hs // 2)
+            names = ["refs/heads/%s%05d" % ("w" * 95, 3 * j + 1) for j in range(nd)]
+            pick.append({"id": "fdeep%d" % di, "blocksize": 256, "restart": 16, "unaligned": bool(di % 2), "skipindex": False, "hash": "sha1" if hs == 40 else "s256", "exact": False,
+                         "min": 7, "max": 7, "refs": [{"n": nm, "i": 7, "v": ["v", one, ""]} for nm in names],
+                         "logs": [{"n": nm, "i": 7, "del": False, "old": "", "new": one, "user": "u", "email": "e", "time": 5, "tz": 0, "msg": "m"} for nm in names[:6]],
+                         "seekrefs": names[::3] + ["", "zzz"], "seeklogs": [{"n": names[0], "i": 7}, {"n": names[5], "i": 7}]})
         wd = os.path.join(sc, "faults")
         os.makedirs(wd)
         with open(os.path.join(wd, "cases.json"), "w") as f:
@@ -117,13 +150,15 @@ def run(pid, tier):
             print("VIOLATION property=%s replay=%s" % (pid, rp))
             print("  %s  [field %s, fault %s, table layout %s; %d damaged files with this signature]" % (bad[k][:200], ft["field"], ft["class"], ft["feat"], len(ks)))
             nviol += 1
+        design = nav_design(sc, tier)
         combos = {(f["field"], f["class"] if f["kind"] == "edit" else "truncate", f["feat"]) for f in faults}
         cov = dict(evaluations=len(results), distinct_nontrivial=len(combos),
                    rule="one evaluation = one damaged file opened and exercised (NewReader, full scans, seeks, ReadRef/ReadLogAt, RefsFor); "
                         "distinct = (format field, fault class, layout feature of the table) triples, counted",
                    samples=[faults[0], faults[len(faults) // 2], faults[-1]], exhaustive=True,
                    tables=len(plan["tables"]), fields=len({f["field"] for f in faults}), fault_classes=len({f["class"] for f in faults}),
-                   failures=len(bad), failure_signatures=len(bysig), known_findings_seen=sorted(seen_known))
+                   failures=len(bad), failure_signatures=len(bysig), known_findings_seen=sorted(seen_known),
+                   index_graph_edges=sum(1 for f in faults if f["class"].startswith("edge_to_")), design_model=design)
         C.write_evidence(pid, tier, LEVEL, cov, time.time() - t0, nviol,
                          assumptions=["faults are structural edits of format fields and truncations; arbitrary bit flips, splices and coverage-guided fuzzing are NOT done",
                                       "memory safety is observed (panic / crash / watchdog), not proved"])
